@@ -88,3 +88,61 @@ package fscache
 //@   ensures !isTempName(result)                                                           # name: never-a-temporary-name   props: C14 C15
 //@   loop 0 invariant 0 <= i && len(encoded) - i >= 1 && b64Text(encoded)
 //@   loop 0 invariant forall j int :: 0 <= j && j < len(parts) ==> isDirName(parts[j]) && sepFree(parts[j])
+
+// AES-GCM encryptor (C17): Encrypt draws a fresh nonce from e.r on every call and returns
+// nonce || sealed(nonce, data); Decrypt succeeds only on input of that shape and returns the
+// sealed plaintext. authentic/plainOf above are what get/set see of these two contracts.
+// prefixOf(b, k) / suffixOf(b, k): the first k bytes of b and the rest (bytesOf(b) is their
+// concatenation: axiom strOf-split).
+//@ spec func prefixOf(b []byte, k int) string = strOf(elemsArr(b), sliceOff(b), k)
+//@ spec func suffixOf(b []byte, k int) string = strOf(elemsArr(b), sliceOff(b) + k, len(b) - k)
+//@ func (*aesgcmEncryptor).Encrypt
+//@   property C17
+//@   requires e != nil && e.gcm != nil && e.r != nil
+//@   assigns lastRead
+//@   ensures result1 == nil ==> bytesOf(result0) == lastRead + sealed(e.gcm, lastRead, bytesOf(data))     # name: fresh-nonce-then-sealed-data
+//@   ensures result1 == nil ==> len(lastRead) == nonceSize(e.gcm)                                          # name: nonce-has-the-aead-size
+//@   ensures result1 != nil ==> len(result0) == 0                                                          # name: no-output-without-a-nonce
+
+//@ func (*aesgcmEncryptor).Decrypt
+//@   property C17
+//@   requires e != nil && e.gcm != nil
+//@   assigns elems(data)
+//@   ensures result1 == nil ==> len(data) >= nonceSize(e.gcm)                                              # name: too-short-is-rejected
+//@   ensures result1 == nil ==> old(suffixOf(data, nonceSize(e.gcm))) == sealed(e.gcm, old(prefixOf(data, nonceSize(e.gcm))), bytesOf(result0))   # name: only-authentic-input-yields-data
+
+// Configuration (C17): encryption that was asked for is on, or opening fails. isEncOption(o):
+// o was built by WithEncryption (definition; WithEncryption is trusted for exactly that).
+// The contract of Option.apply for such options is the verified contract of the closure
+// WithEncryption$1 (optionFunc.apply calls the closure; that link is by inspection).
+//@ spec func isEncOption(o Option) bool
+//@ iface Option.apply(o, c)
+//@   assigns c.connTimeout, c.timeout, c.enc, c.base, c.updateMTime
+//@   ensures result == nil && isEncOption(o) ==> c.enc != nil
+//@   ensures result == nil && old(c.enc) != nil ==> c.enc != nil
+//@ func WithEncryption
+//@   trusted
+//@   property C17
+//@   fresh
+//@   ensures isEncOption(result) && result != nil
+//@ func WithEncryption$1
+//@   property C17
+//@   requires c != nil && key != nil
+//@   assigns c.enc
+//@   ensures err == nil ==> c.enc != nil && *key != ""                                   # name: success-means-an-encryptor-is-installed
+//@ func newAESGCMEncryptor
+//@   property C17
+//@   assigns nothing
+//@   ensures result1 == nil ==> result0 != nil && fresh(result0) && result0.gcm != nil && result0.r == r     # name: usable-key-gives-an-aead
+//@   ensures result1 != nil ==> result0 == nil                                             # name: bad-key-gives-no-encryptor
+// The goroutine started by Open runs initialize, which sets the directory-related fields only.
+//@ func Open$1
+//@   trusted
+//@   assigns (*c).base, (*c).root, (*c).fn, (*c).fnk, (*c).dw, (*c).timeout
+//@ func Open
+//@   property C17
+//@   nosafety
+//@   assigns *
+//@   ensures result1 == nil && result0 != nil && (exists j int :: 0 <= j && j < len(opts) && isEncOption(opts[j])) ==> result0.enc != nil     # name: requested-encryption-is-on-or-open-fails
+//@   loop 0 invariant -1 <= rangeindex && rangeindex < len(opts) && c != nil && fresh(c)
+//@   loop 0 invariant forall j int :: 0 <= j && j <= rangeindex && isEncOption(opts[j]) ==> c.enc != nil
